@@ -13,7 +13,8 @@ def sec10():
     out = ["## 10. Findings on the real code\n",
            "All of these were first reported by a check on the unchanged tree, reproduced by hand against the real code with the\n"
            "failing input, and then either repaired (one minimal unguarded `fix:` commit each; the repository test suite, unedited,\n"
-           "still gives 250 passed / the one pre-existing failure, and the module doctests pass as they did at the pinned commit) or\n"
+           "still passes - 250 passed and the one pre-existing failure, `test_is_phenomena`, until that failure itself was traced to a\n"
+           "defect and repaired: 251 passed since - and the module doctests pass as they did at the pinned commit) or\n"
            "recorded in `KNOWN_FINDINGS.txt`. The checks print one `KNOWN-FINDING:` line per listed finding and still exit 1 for any\n"
            "violation the predicates do not cover; `fixed:` entries suppress nothing. `property=GROWTH` marks defects outside the\n"
            "twenty listed properties, found by the growth suite (section 12).\n",
@@ -70,13 +71,16 @@ def sec11():
     head = ["## 11. Seeded changes and which checks catch them\n",
             "%d property-breaking changes are kept under `seeded/<name>/` (`patch.diff`, `demo.py`, `meta.json`). Each was written by a\n"
             "fresh sub-agent that saw only the text of one property and its own scratch worktree (`tools/mutation_agent_prompt.txt`;\n"
-            "two rounds, the second told which sites the first had used), passes the repository's 250 tests, and was confirmed by\n"
+            "four rounds; later rounds were told which sites the earlier ones had used and, in round 4, to hide behind rare input\n"
+            "combinations, tolerance margins and era effects), passes the repository's 250 tests, and was confirmed by\n"
             "hand in a scratch worktree at the current /repo HEAD (`tools/revet_all.sh`: demo exits 1 with the change, 0 without).\n"
             "`tools/matrix.py` applies each in a scratch worktree, runs the owning check (quick, then thorough) against it through\n"
             "`VERIF_REPO`, falls back to the other checks when the owner is silent, and records the clauses whose count rose above the\n"
             "unchanged tree's. **%d of %d are detected, %d of them by the check of the property they were written against**; the\n"
             "others are history-dependent caches that only the C20 history clauses can see (their own property statement does not\n"
-            "mention call histories). Checks strengthened because a seeded change first escaped them are listed in section 7.\n"
+            "mention call histories). `thorough` in the last column means the quick tier was silent (rare-input changes of round 4:\n"
+            "one aphelion of year 3731, eight full moons of the 20th century BC, ...). Checks strengthened because a seeded change\n"
+            "first escaped them are listed in section 7.\n"
             % (n, det, n, own),
             "| change | what it does | detected by (check tier: clauses above baseline) |", "|---|---|---|"]
     return "\n".join(head + rows) + "\n" + dropped
